@@ -617,6 +617,8 @@ func (v *parser_) parseItems() (
 	}
 
 	// This is not a sequence of items.
+	token = v.getNextToken() // Report the token that cannot start an item.
+	v.putBack(token)
 	return items, token, false
 }
 
